@@ -21,6 +21,7 @@ import Vita.C03.EffSound
 import Vita.C03.SigPath
 import Vita.C03.GenSigPath
 import Vita.C03.PackLemmas
+import Vita.C03.MurmurLemmas
 import Vita.C03.GenPack
 import Vita.Common.Murmur
 
@@ -622,6 +623,55 @@ example : SigInv (deHash murmurBytes)
       (fun s op => op.apply murmurBytes s) (⟨[3, 4], HashLike.empty⟩ : Vec Vita.Murmur.Hash)) :=
   de_sig_inv_reachable murmurBytes _ _
 end example2
+
+/-! ## Part D — MurmurHash3 x64 128 as translated from src/kernel/cache_hash.h
+
+`GenPack.murmur` holds `hash128` (block loop, fall-through tail `switch`, finalisation), `fmix`,
+`rotl64` and `get_block` as statements over five registers, regenerated on every run. -/
+
+section murmur
+open USyn
+
+theorem gen_murmur_as_modelled : GenPack.murmur = murmurAsModelled := by decide
+
+/-- the translated `hash128` computes the model `Vita.Murmur.hash128` (the one the other
+    properties execute) on EVERY message and seed: block loop = `body`, tail switch = `tailStep`
+    (the shifted bytes xor-ed by the switch occupy disjoint bits: xor = or), finalisation =
+    `finish` -/
+theorem murmur_translated_eq_model (bytes : List UInt8) (seed : UInt64) :
+    GenPack.murmur.run bytes seed = Vita.Murmur.hash128 bytes seed := by
+  rw [gen_murmur_as_modelled]; exact run_eq bytes seed
+
+/-- For every length `n`, the block loop and the tail switch together read every byte of the
+    message exactly once (no byte skipped, none read twice): the list of indices read, in
+    execution order, is a permutation of `0 … n-1`. -/
+theorem murmur_reads_every_byte_once (n : Nat) : (GenPack.murmur.reads n).Perm (List.range n) := by
+  rw [gen_murmur_as_modelled]; exact reads_perm n
+
+/-- `fmix` is injective (xor-shifts by 33 are involutions, the multipliers are odd) -/
+theorem fmix_injective (a b : UInt64) (h : Vita.Murmur.fmix a = Vita.Murmur.fmix b) : a = b :=
+  fmix_inj a b h
+
+/-- the finalisation loses nothing: different pre-finalisation states (same length) give
+    different hashes -/
+theorem finish_injective_state (h1 h2 : Vita.Murmur.Hash) (len : Nat)
+    (h : Vita.Murmur.finish h1 len = Vita.Murmur.finish h2 len) : h1 = h2 :=
+  finish_inj_state h1 h2 len h
+
+/-- different lengths feed different values: from one pre-finalisation state (e.g. messages that
+    differ only in trailing zero bytes of the last block) two lengths below 2^64 never give the
+    same hash -/
+theorem finish_injective_len (h : Vita.Murmur.Hash) (l1 l2 : Nat) (b1 : l1 < 2 ^ 64) (b2 : l2 < 2 ^ 64)
+    (e : Vita.Murmur.finish h l1 = Vita.Murmur.finish h l2) : l1 = l2 := by
+  have := finish_inj_len h l1 l2 e
+  have h1 := congrArg UInt64.toNat this
+  simp only [Nat.toUInt64_eq, UInt64.toNat_ofNat'] at h1
+  omega
+
+example : GenPack.murmur.run [104, 101, 108, 108, 111] = ⟨14265882799767548616, 12174794982621535140⟩ := by
+  decide
+
+end murmur
 
 /-! ## Part C — concurrent signature computations do not interfere
 
